@@ -192,3 +192,35 @@ def atoms_seen(decs: Sequence[Dec]) -> List[str]:
             if k not in out:
                 out.append(k)
     return out
+
+
+def list_items(s: PathSummary, name: str) -> Optional[List[Tuple[str, ast.AST]]]:
+    """What a list local holds, as built on this path: ("elem", e) / ("splice", iterable) in order.
+    Recognised builders: a list display (with *splices), .append(e), .extend(it), name += it.  None when the local is not built that way."""
+    items: Optional[List[Tuple[str, ast.AST]]] = None
+
+    def of_display(d: ast.AST) -> Optional[List[Tuple[str, ast.AST]]]:
+        if isinstance(d, (ast.List, ast.Tuple)):
+            return [("splice", e.value) if isinstance(e, ast.Starred) else ("elem", e) for e in d.elts]
+        if isinstance(d, ast.Call) and isinstance(d.func, ast.Name) and d.func.id == "list" and not d.keywords and len(d.args) <= 1:
+            return [] if not d.args else (of_display(d.args[0]) if isinstance(d.args[0], (ast.List, ast.Tuple)) else [("splice", d.args[0])])
+        return None
+
+    for e in s.effects:
+        if e.kind == "bind" and isinstance(e.target, ast.Name) and e.target.id == name and e.value is not None:
+            v = e.value
+            if isinstance(v, ast.BinOp) and isinstance(v.op, ast.Add) and isinstance(v.left, ast.Name) and v.left.id == name and items is not None:
+                more = of_display(v.right)
+                items = items + (more if more is not None else [("splice", v.right)])
+                continue
+            items = of_display(v)
+            if items is None:
+                return None
+        elif e.kind == "expr" and isinstance(e.value, ast.Call) and isinstance(e.value.func, ast.Attribute) and isinstance(e.value.func.value, ast.Name) and e.value.func.value.id == name \
+                and items is not None and len(e.value.args) == 1 and not e.value.keywords:
+            if e.value.func.attr == "append":
+                items = items + [("elem", e.value.args[0])]
+            elif e.value.func.attr == "extend":
+                more = of_display(e.value.args[0])
+                items = items + (more if more is not None else [("splice", e.value.args[0])])
+    return items
